@@ -41,6 +41,7 @@ TStep ==
                              /\ UNCHANGED <<seen, nos>>
        [] e.e = "enter"   -> /\ IF CanSpawn(e.k) THEN Ok(Spawn(e.k))
                                 ELSE IF CanHostClone(e.k) THEN Ok(HostClone(e.k))
+                                ELSE IF CanCloneCall(e.k) THEN Ok(CloneCall(e.k))
                                 ELSE IF CanImport(e.k) THEN Ok(Import(e.k))
                                 ELSE Bad
                              /\ UNCHANGED <<seen, nos>>
